@@ -25,7 +25,10 @@ def _routines(T):
     from typelib import marshals, unmarshals
 
     with NoTracing():
-        return marshals.marshaller(T), unmarshals.unmarshaller(T)
+        marshals.marshaller(T), unmarshals.unmarshaller(T)  # built here: a build failure is reported as such
+
+    # the calls go through the public entry points (marshal(v, t=T) / unmarshal(T, m)), as the statement is written
+    return (lambda v: marshals.marshal(v, t=T)), (lambda m: unmarshals.unmarshal(T, m))
 
 
 ADV = ("null", "None", "1", "[1]", "true", "2020-01-01", '{"a": 1}')
